@@ -492,6 +492,11 @@ def r_tensor(ctx):
 
 
 # ---------------------------------------------------------------------------------------------------
+def _rdf_helpers(ctx):
+    """private helpers of rdf.py that the public functions may call: evaluated from their source"""
+    return {q_: f_ for q_, f_ in ctx.py.mod(RDF).functions.items() if "." not in q_ and q_ not in ("compute_rdf", "compute_rdf_t")}
+
+
 def r7_tensor(ctx):
     """compute_rdf / compute_rdf_t by tensor value numbering: np.histogram and the distance functions are summarised as opaque maps whose
     inputs are checked; decided is everything around them - which distances are histogrammed, bin centres, shell volume, the normalisation by
@@ -543,7 +548,7 @@ def r7_tensor(ctx):
     ctx.analysed_functions.add(RDF + ":compute_rdf")
     pairs = Ten((5, 2), [Rat(Poly.const(v)) for v in (0, 1, 1, 2, 2, 3, 0, 3, 0, 2)])
     log = {"hist": [], "dist": []}
-    ts = TenSym({}, models=make_models(log))
+    ts = TenSym({}, funcs=_rdf_helpers(ctx), models=make_models(log))
     try:
         got = ts.run_fn(fn, traj=traj, pairs=pairs, r_range=r_range, n_bins=n_bins, periodic="<periodic>")
         ok = len(log["dist"]) == 1 and rows(log["dist"][0][0]) == rows(pairs) and log["dist"][0][1] == "<periodic>"
@@ -566,7 +571,7 @@ def r7_tensor(ctx):
     for q_ in ("compute_rdf", "compute_rdf_t"):
         fnb = ctx.py.func(RDF, q_)
         log = {"hist": [], "dist": []}
-        ts = TenSym({}, models=make_models(log))
+        ts = TenSym({}, funcs=_rdf_helpers(ctx), models=make_models(log))
         try:
             kw_ = dict(traj=traj, pairs=Ten(pairs.shape, pairs.data), r_range=Ten((2,), [Rat(Poly.const(1)) / 2, Rat(Poly.const(3)) / 2]), bin_width=Rat(Poly.const(1)) / 4)
             if q_ == "compute_rdf_t":
@@ -589,7 +594,7 @@ def r7_tensor(ctx):
         n_tot = len(aug)
         what = "self_correlation=%s, %d pairs in chunks of %d" % (self_corr, n_tot, chunk)
         log = {"hist": [], "dist": []}
-        ts = TenSym({}, models=make_models(log))
+        ts = TenSym({}, funcs=_rdf_helpers(ctx), models=make_models(log))
         try:
             got = ts.run_fn(fn, traj=traj, pairs=Ten(pairs4.shape, pairs4.data), times=times, r_range=r_range, n_bins=n_bins, self_correlation=self_corr, n_concurrent_pairs=chunk, periodic="<periodic>")
             seen = [p_ for d in log["dist"] for p_ in rows(d[0])]
